@@ -97,7 +97,16 @@ type lateNote struct {
 	Ptr   string `json:"ptr"`
 }
 
-func (r *recorder) add(s string) { r.mu.Lock(); r.out = append(r.out, s); r.mu.Unlock() }
+func (r *recorder) add(s string) {
+	// a callback about an SKI that is none of the scenario's: a connection that strayed in from another process on this
+	// machine (the hub listens on a port the kernel chose; a dialler elsewhere may still hold that number) - not part of the run
+	if strings.Contains(s, ":?") {
+		return
+	}
+	r.mu.Lock()
+	r.out = append(r.out, s)
+	r.mu.Unlock()
+}
 func (r *recorder) take() []string {
 	r.mu.Lock()
 	defer r.mu.Unlock()
